@@ -2072,7 +2072,8 @@ func matrixEndless(r *vk.Run, b *builder) {
 		`<% let f = fn() { %><%= partial("selfp") %><% } %><%= f() %>`,
 	}
 	for _, t := range endless {
-		b.add(cell{Case{Matrix: "endless", Tmpl: vk.Text(t)}, true, "endless/must fail"})
+		// in a child process: without a bound the program ends in a fatal stack overflow, which kills the process it runs in
+		b.add(cell{Case{Matrix: "endless", Tmpl: vk.Text(t), Iso: true}, true, "endless/must fail"})
 	}
 	finite := []string{
 		`<% let f = fn(n) { if (n == 0) { return 0 } return 1 + f(n - 1) } %><%= f(300) %>`,
